@@ -146,7 +146,7 @@ pub struct QS {
 }
 
 impl QS {
-    fn new(rt: Type, cs: Vec<CS>) -> QS {
+    pub fn new(rt: Type, cs: Vec<CS>) -> QS {
         QS { rt, name: None, cs, subs: Vec::new(), optional: false }
     }
     fn build<'a>(&'a self) -> Query<'a> {
@@ -162,7 +162,7 @@ impl QS {
         }
         q
     }
-    fn describe(&self) -> Value {
+    pub fn describe(&self) -> Value {
         json!({"result": rtname(self.rt), "name": self.name, "optional": self.optional, "constraints": self.cs.iter().map(|c| format!("{:?}", c)).collect::<Vec<_>>(), "subqueries": self.subs.iter().map(|s| s.describe()).collect::<Vec<_>>(), "stamql": self.build().to_string().ok()})
     }
 }
@@ -179,7 +179,7 @@ fn rtname(t: Type) -> &'static str {
     }
 }
 
-const RTS: [Type; 6] = [Type::Annotation, Type::AnnotationData, Type::DataKey, Type::TextSelection, Type::TextResource, Type::AnnotationDataSet];
+pub const RTS: [Type; 6] = [Type::Annotation, Type::AnnotationData, Type::DataKey, Type::TextSelection, Type::TextResource, Type::AnnotationDataSet];
 
 // ---------------------------------------------------------------------------------------------
 // evaluation
@@ -248,14 +248,14 @@ pub fn run<'a>(store: &'a AnnotationStore, q: Query<'a>) -> Out {
     }
 }
 
-fn eval(store: &AnnotationStore, q: &QS) -> Out {
+pub fn eval(store: &AnnotationStore, q: &QS) -> Out {
     run(store, q.build())
 }
 
 // ---------------------------------------------------------------------------------------------
 // what exists in a store: material for constraints
 
-struct Pool {
+pub struct Pool {
     ann_ids: Vec<String>,
     res_ids: Vec<String>,
     set_ids: Vec<String>,
@@ -264,7 +264,7 @@ struct Pool {
     texts: Vec<String>,
 }
 
-fn pool(store: &AnnotationStore, rng: &mut Rng) -> Pool {
+pub fn pool(store: &AnnotationStore, rng: &mut Rng) -> Pool {
     let mut p = Pool { ann_ids: Vec::new(), res_ids: Vec::new(), set_ids: Vec::new(), keys: Vec::new(), values: Vec::new(), texts: Vec::new() };
     for a in store.annotations() {
         if let Some(id) = a.id() {
@@ -333,7 +333,7 @@ fn gen_ops(rng: &mut Rng, v: &DataValue) -> OpS {
 }
 
 /// a constraint that does not refer to variables
-fn gen_cs(rng: &mut Rng, p: &Pool, allow_union: bool) -> CS {
+pub fn gen_cs(rng: &mut Rng, p: &Pool, allow_union: bool) -> CS {
     let meta = rng.chance(1, 5);
     match rng.below(if allow_union { 12 } else { 10 }) {
         0 => CS::Id(match rng.below(4) {
